@@ -4,7 +4,11 @@ CONSTANTS
   MaxOps = 3
   Kinds = {"write", "replace"}
   Fates = {"deliver", "drop", "dup"}
+  Rejects = {}
+  CbOps = "none"
   Recheck = FALSE
+  Post = "none"
+  Record = "always"
   Export = FALSE
-INVARIANTS TypeOK NoRepeat
+INVARIANTS TypeOK
 PROPERTIES NeverForEvaluated Converges
